@@ -71,8 +71,8 @@ type Case struct {
 	Programs [][]Op    `json:"programs,omitempty"`
 	Schedule []int16   `json:"schedule,omitempty"`
 	// Engine C
-	Ops []Op            `json:"ops,omitempty"`
-	Env map[string]any  `json:"env,omitempty"`
+	Ops []Op           `json:"ops,omitempty"`
+	Env map[string]any `json:"env,omitempty"`
 	// outcome
 	Violation *Violation `json:"violation,omitempty"`
 	End       string     `json:"end,omitempty"`
